@@ -6,5 +6,6 @@ package main
 func init() {
 	gfSpecs = append(gfSpecs,
 		gfSpec{Pkg: "./pkg/core/statesync", Func: "TemporaryPrefix", Lean: "temporaryPrefix"},
+		gfSpec{Pkg: "./pkg/core/storage", Recv: "MemoryStore", Func: "Get", Lean: "memoryStoreGet"},
 	)
 }
